@@ -824,7 +824,7 @@ class Ref:
                 if (f >> (i - 1)) & 1:
                     tpl = st.pop()
                     if 'sigfield%d' % i not in self.cache:
-                        raise Err('missing sigfield')
+                        raise Stop('template for an absent sigfield: "False otherwise" or an error - not documented')
                     ok = ok and tpl == self.cache['sigfield%d' % i]
             if name.endswith('VERIFY'):
                 if not ok:
